@@ -49,7 +49,11 @@ func (r *rng) chance(pct int) bool      { return r.intn(100) < pct }
 type cfg struct {
 	sizes    []int
 	sentinel bool
+	gran     int    // bufferImageGranularity (a power of two 1..65536; anything else reads as 1)
+	handler  string // "fake" (accept-all granularity handler) or "vam" (vam's blockBufferImageGranularity)
 }
+
+func validGran(g int) bool { return g >= 1 && g <= 65536 && g&(g-1) == 0 }
 
 func cfgLine(c cfg) string {
 	ss := make([]string, len(c.sizes))
@@ -60,11 +64,16 @@ func cfgLine(c cfg) string {
 	if c.sentinel {
 		sn = 1
 	}
-	return fmt.Sprintf("CFG blocks=%s sentinel=%d", strings.Join(ss, ","), sn)
+	line := fmt.Sprintf("CFG blocks=%s sentinel=%d", strings.Join(ss, ","), sn)
+	if c.gran != 1 || c.handler != "fake" {
+		// the default (granularity 1, accept-all handler) is not printed: older traces stay as they are
+		line += fmt.Sprintf(" gran=%d handler=%s", c.gran, c.handler)
+	}
+	return line
 }
 
 func parseCfg(line string) cfg {
-	var c cfg
+	c := cfg{gran: 1, handler: "fake"}
 	for _, f := range strings.Fields(line)[1:] {
 		kv := strings.SplitN(f, "=", 2)
 		if len(kv) != 2 {
@@ -79,6 +88,14 @@ func parseCfg(line string) cfg {
 			}
 		case "sentinel":
 			c.sentinel = kv[1] == "1"
+		case "gran":
+			if v, err := strconv.Atoi(kv[1]); err == nil && validGran(v) {
+				c.gran = v
+			}
+		case "handler":
+			if kv[1] == "vam" {
+				c.handler = "vam"
+			}
 		}
 	}
 	return c
@@ -104,6 +121,7 @@ type stats struct {
 	maxLive    int
 	oracleFail int
 	moves      int
+	refused    int
 }
 
 func (s *stats) merge(o *stats) {
@@ -118,6 +136,7 @@ func (s *stats) merge(o *stats) {
 	}
 	s.oracleFail += o.oracleFail
 	s.moves += o.moves
+	s.refused += o.refused
 }
 
 func newStats() *stats { return &stats{ops: map[string]int{}, results: map[string]int{}} }
@@ -141,10 +160,18 @@ type hist struct {
 	// code took another order this time
 	wantOrd     []string
 	ordMismatch bool
+
+	mixedKindPct int // generator only
 }
 
 func newHist(c cfg, out *bufio.Writer, st *stats) *hist {
-	return &hist{c: c, w: newWorld(c.sizes, c.sentinel), out: out, st: st, ignoredBlocks: map[int]bool{}}
+	if !validGran(c.gran) {
+		c.gran = 1
+	}
+	if c.handler != "vam" {
+		c.handler = "fake"
+	}
+	return &hist{c: c, w: newWorld(c.sizes, c.sentinel, c.gran, c.handler), out: out, st: st, ignoredBlocks: map[int]bool{}}
 }
 
 func (h *hist) fail(prop, sig, detail string) {
@@ -242,6 +269,7 @@ func (h *hist) emitObs() {
 			h.fail("C07", "block-tiling", fmt.Sprintf("block id=%d regions end at %d size %d", b.id, pos, b.size))
 		}
 	}
+	h.checkPages()
 	live := h.liveSlots()
 	if len(live) > h.st.maxLive {
 		h.st.maxLive = len(live)
@@ -456,6 +484,8 @@ func (h *hist) exec(f []string) bool {
 		}
 		w.pass = &defrag.PassContext{MaxPassBytes: lim(w.maxBytes), MaxPassAllocations: lim(w.maxAlloc)}
 		h.pending = nil
+		w.attempt, w.refusals, w.lastSrc = 0, nil, -1
+		tempsBefore := h.liveTemps()
 		idxOf := map[*block]int{}
 		for i, b := range w.blocks {
 			idxOf[b] = i
@@ -464,6 +494,7 @@ func (h *hist) exec(f []string) bool {
 			h.result("R panic")
 			h.fail("C13", "panic:PASS", fmt.Sprint(lastPanic))
 			w.lockDepth, w.lockBad = 0, false
+			w.failSet = nil
 		} else {
 			moves := w.ctx.Moves()
 			h.result(fmt.Sprintf("R ok %d", len(moves)))
@@ -477,9 +508,15 @@ func (h *hist) exec(f []string) bool {
 					h.fail("C07", "move-metadata-mismatch", fmt.Sprintf("move %d: Src/DstBlockMetadata are not the blocks of the allocations", i))
 				}
 			}
+			for _, rf := range w.refusals {
+				fmt.Fprintf(h.out, "RF %d %d %d\n", rf.k, rf.src, rf.dstBlk)
+			}
 			h.st.moves += len(moves)
+			h.st.refused += len(w.refusals)
 			w.passOpen = true
+			w.failSet = nil
 			h.checkPass()
+			h.checkRefusals(tempsBefore)
 		}
 	case "END":
 		// complete the open pass
@@ -528,6 +565,15 @@ func (h *hist) exec(f []string) bool {
 			h.checkOutcome(before, ds)
 		}
 		h.pending = nil
+	case "CF":
+		// the listed commit attempts (counted from 0) of the next pass are refused by the block list
+		w.failSet = map[int]bool{}
+		for i := 1; i < len(f); i++ {
+			if k := atoi(f, i); k >= 0 {
+				w.failSet[k] = true
+			}
+		}
+		h.result("R ok")
 	case "STATS":
 		h.result("R ok")
 		fmt.Fprintf(h.out, "RS %d %d %d %d\n", w.run.BytesMoved, w.run.BytesFreed, w.run.AllocationsMoved, w.run.AllocationsFreed)
@@ -544,7 +590,7 @@ func (h *hist) exec(f []string) bool {
 
 func printSummary(st *stats, nh int) {
 	w := os.Stderr
-	fmt.Fprintf(w, "SUMMARY histories=%d maxLive=%d moves=%d oracleFails=%d\n", nh, st.maxLive, st.moves, st.oracleFail)
+	fmt.Fprintf(w, "SUMMARY histories=%d maxLive=%d moves=%d refused=%d oracleFails=%d\n", nh, st.maxLive, st.moves, st.refused, st.oracleFail)
 	keys := []string{}
 	for k := range st.ops {
 		keys = append(keys, k)
@@ -563,7 +609,7 @@ func printSummary(st *stats, nh int) {
 	}
 }
 
-var opKinds = map[string]bool{"A": true, "F": true, "BEGIN": true, "PASS": true, "END": true, "ORD": true, "STATS": true}
+var opKinds = map[string]bool{"A": true, "F": true, "BEGIN": true, "PASS": true, "END": true, "ORD": true, "STATS": true, "CF": true}
 
 func main() {
 	if len(os.Args) < 2 {
